@@ -221,3 +221,6 @@ func ReadJSON(path string, v any) error {
 	}
 	return json.Unmarshal(b, v)
 }
+
+// JSON marshals v compactly (for replay artefacts).
+func JSON(v any) string { b, _ := json.Marshal(v); return string(b) }
